@@ -72,6 +72,31 @@ def _def_ranges(path):
     return out
 
 
+_PINNED = {}
+
+
+def _pinned_def_ranges(relpath):
+    """_def_ranges of the file as it was at the repository's root (pinned) commit."""
+    if relpath in _PINNED:
+        return _PINNED[relpath]
+    import subprocess
+    import tempfile
+    out = {}
+    try:
+        root = subprocess.run(["git", "-C", dfmon.REPO_ROOT, "rev-list", "--max-parents=0", "HEAD"],
+                              capture_output=True, text=True).stdout.split()[-1]
+        src = subprocess.run(["git", "-C", dfmon.REPO_ROOT, "show", f"{root}:{relpath}"],
+                             capture_output=True, text=True).stdout
+        with tempfile.NamedTemporaryFile("w", suffix=".py", delete=False) as fh:
+            fh.write(src)
+        out = _def_ranges(fh.name)
+        os.unlink(fh.name)
+    except Exception:  # noqa: BLE001
+        pass
+    _PINNED[relpath] = out
+    return out
+
+
 def anchor_report(prop_id, merged_hits):
     """Per mechanism of the property: how many of its lines were executed."""
     props = os.path.join(dfmon.VERIF_ROOT, "properties.jsonl")
@@ -97,10 +122,19 @@ def anchor_report(prop_id, merged_hits):
                     name = name.strip(".")
                     if name in cache[f]:
                         ranges.append(cache[f][name])
-                if not ranges:  # fall back to the stated numbers (pinned commit)
+                if not ranges:
+                    # the stated numbers refer to the pinned commit: map each span to the
+                    # function(s) it overlaps there and use those functions' ranges in
+                    # the current tree (repairs shift line numbers)
+                    pinned = _pinned_def_ranges(f)
                     for r in nums.split(","):
                         lo, _, hi = r.partition("-")
-                        ranges.append((int(lo), int(hi or lo)))
+                        lo, hi = int(lo), int(hi or lo)
+                        names_here = [k for k, (a, b) in pinned.items()
+                                      if "." in k and a <= hi and lo <= b] or \
+                                     [k for k, (a, b) in pinned.items() if a <= hi and lo <= b]
+                        mapped = [cache[f][k] for k in names_here if k in cache[f]]
+                        ranges += mapped or [(lo, hi)]
                 hit_lines = set(merged_hits.get(f, ()))
                 for lo, hi in ranges:
                     n = sum(1 for x in hit_lines if lo <= x <= hi)
